@@ -176,9 +176,13 @@ def _wrap_launch(wp):
     else:
       set_mode(2, choice)
     try:
-      return orig(*a, **kw)
+      ret = orig(*a, **kw)
     finally:
       set_mode(0)
+    after = getattr(hook, "after", None)
+    if after is not None:
+      after(idx, _kernel_key(kernel), n, outs)
+    return ret
 
   def launch(*a, **kw):
     return _around(orig_launch, a, kw)
